@@ -2,18 +2,21 @@ package props
 
 import (
 	"fmt"
+	"go/ast"
+	"go/types"
 	"sort"
 	"strings"
 
 	"verif/internal/an"
 	"verif/internal/flow"
+	"verif/internal/load"
 )
 
 func init() {
 	register(&Property{
 		ID:        "C16",
 		Technique: "static analysis: agreement between the context fields the stateful v2 encoder and decoder update, implication by truth table from the continuation test to the equalities the decoder relies on, agreement of written and handled type tags, sibling agreement of allocation limits between the two decoders, error-return classification",
-		Explanation: "Decides: (M1) the encoder and the decoder keep the same context: the fields stored after a full message {term, index, ToGroup, FromGroup} agree, both advance index once per entry in the compact branch and set it from the last entry after a full message; (M2) every header field the decoder reconstructs in the compact branch is pinned by the continuation test: isContinue implies index==m.Index, term==m.LogTerm==m.Term and group identity on both ends (isSameGroup compares node, group and replica ids), and the reconstructed message literal takes each field from that context; the compact branch is refused when the stream's peers do not match the context; (M3) the type tags written equal the tags handled and an unknown tag is an error; (M5) sizes read from the stream are bounded before allocation, in both decoders; (M6) every read/unmarshal error is returned.",
+		Explanation: "Decides: (M1) the encoder and the decoder keep the same context: the fields stored after a full message {term, index, ToGroup, FromGroup} agree, both advance index once per entry in the compact branch and set it from the last entry after a full message; (M2) every header field the decoder reconstructs in the compact branch is pinned by the continuation test: isContinue implies index==m.Index, term==m.LogTerm==m.Term and group identity on both ends (isSameGroup compares node, group and replica ids), and the reconstructed message literal takes each field from that context; the compact branch is refused when the stream's peers do not match the context; (M3) the type tags written equal the tags handled and an unknown tag is an error; (M5) sizes read from the stream are bounded before allocation, in both decoders; (M6) every read/unmarshal error is returned. (M4) decoded messages do not alias the decode buffer: in every generated raftpb Unmarshal method a slice-typed field is filled from the input only by append(field[:0], input[a:b]...) (both stream decoders reuse their buffer).",
 		NotDecided: "round-trip equality of field values (protobuf correctness), interleaving of many groups at runtime, HTTP framing, that gogoproto's generated Unmarshal copies byte slices (M4 of the design is not built: the generated code is outside the rule vocabulary).",
 		Assumptions: []string{"path conditions as in C01"},
 		Run: runC16,
@@ -274,6 +277,97 @@ func runC16(c *Ctx) {
 		for _, s := range u.Match(an.Call("io.ReadFull", "encoding/binary.Read", "pkg/pbutil.MaybeUnmarshal", "raft/raftpb.(*Message).Unmarshal")) {
 			ok, why := u.ErrTested(s)
 			r.Check("C16-M6", u.Name+": the error of "+an.CalleeName(s)+" is tested", u.Pos(s.Pos), ok, why)
+		}
+	}
+}
+
+func init() {
+	old := registry["C16"].Run
+	registry["C16"].Run = func(c *Ctx) { old(c); c16M4(c) }
+}
+
+// M4: decoded messages never alias the input buffer. Both stream decoders unmarshal from a buffer they reuse for the
+// next message, so a byte field that kept a sub-slice of the input would change after the message was handed on.
+func c16M4(c *Ctx) {
+	r := c.R
+	r.Clause("C16-M4", "decoded raft messages do not alias the decode buffer")
+	nFn, nCopy := 0, 0
+	for _, fn := range c.P.Funcs() {
+		if load.ShortPkg(fn.Pkg.PkgPath) != "raft/raftpb" || fn.Decl.Name.Name != "Unmarshal" || fn.Decl.Recv == nil || fn.Decl.Body == nil {
+			continue
+		}
+		u, err := c.W.Unit(fn.Name)
+		if err != nil {
+			r.Unknown("C16-M4", fn.Name, "", err.Error())
+			continue
+		}
+		nFn++
+		in := paramAt(u, 0)
+		mentionsInputSlice := func(e ast.Expr) bool {
+			found := false
+			ast.Inspect(e, func(n ast.Node) bool {
+				if se, ok := n.(*ast.SliceExpr); ok {
+					if id, ok := ast.Unparen(se.X).(*ast.Ident); ok && u.Info().ObjectOf(id) == in {
+						found = true
+					}
+				}
+				return !found
+			})
+			return found
+		}
+		for _, s := range u.Sites {
+			if s.Kind != flow.SStore {
+				continue
+			}
+			rhs := s.RHS
+			if rhs == nil {
+				rhs = s.Tuple
+			}
+			if rhs == nil || !mentionsInputSlice(rhs) {
+				continue
+			}
+			// only a slice-typed destination can keep a reference to the input (integers, errors and strings cannot;
+			// nested messages are unmarshalled by the methods enumerated here)
+			if t := u.Info().TypeOf(s.LHS); t == nil {
+				continue
+			} else if _, isSlice := t.Underlying().(*types.Slice); !isSlice {
+				continue
+			}
+			// allowed: append(dst[:0], in[a:b]...) (copy), string(in[a:b]) (copy), a numeric read of single bytes
+			ok := false
+			why := "stores " + clipS(u.C.Term(rhs), 120)
+			if call, isCall := ast.Unparen(rhs).(*ast.CallExpr); isCall {
+				if id, isId := call.Fun.(*ast.Ident); isId {
+					switch {
+					case id.Name == "append" && call.Ellipsis.IsValid() && len(call.Args) == 2:
+						// the destination is the field's own storage cut to zero length (or nil), never the input
+						if !mentionsInputSlice(call.Args[0]) {
+							ok = true
+							nCopy++
+						}
+					case id.Name == "string" && len(call.Args) == 1:
+						ok = true
+					}
+				}
+			}
+			r.Check("C16-M4", fmt.Sprintf("%s: %s is filled by copying out of the input", u.Name, u.C.Term(s.LHS)), u.Pos(s.Pos), ok, why)
+		}
+		// nothing returns or sends a slice of the input either
+		for _, s := range u.Match(an.Return()) {
+			for _, res := range s.Ret.Results {
+				if mentionsInputSlice(res) {
+					r.Bad("C16-M4", u.Name+": returns a slice of the input", u.Pos(s.Pos), u.C.Term(res))
+				}
+			}
+		}
+	}
+	r.Min("C16-M4", nFn, 8, "generated Unmarshal methods of raftpb")
+	r.Min("C16-M4", nCopy, 4, "byte fields copied out of the input")
+	// and the reason it matters: both stream decoders reuse their buffer
+	for _, fn := range []string{"transport/rafthttp.(*msgAppV2Decoder).decode", "transport/rafthttp.(*messageDecoder).decode"} {
+		if u, err := c.W.Unit(fn); err == nil {
+			n := len(u.Match(an.AnyCall().Where("Unmarshal", func(u *an.Unit, s *flow.Site) bool { return strings.HasSuffix(an.CalleeName(s), ").Unmarshal") })))
+			r.Note("C16-M4: %s unmarshals %d time(s) from its buffer", fn, n)
 		}
 	}
 }
